@@ -6,6 +6,12 @@ TITLES = {
     "C13-a": "gRPC-Web trailer values trimmed with `TrimSpace` (VT/FF/CR at the value's edge no longer flagged)",
     "C13-b": "`PercentEncodeMessage` fast path forgets that `%` itself must be escaped",
     "C13-c": "compressed end-of-stream message arriving in two or more reads is not captured (examiner never runs)",
+    "C13-e": "`examineWireDetails`: the guard of the \"HTTP trailers only in gRPC\" check simplified so that `application/grpc+...` sub-formats fall on the wrong side",
+    "C13-f": "debug data in Any JSON form: the message name is taken from behind the first slash of the type URL, not the last",
+    "C13-g": "gRPC-Web trailer block parser: obsolete-line-folding branch rewritten; a folded line after blank lines is mishandled",
+    "C13-h": "Connect error `code` validated with `connect.Code.UnmarshalText` (accepts numbered forms the hand-written check refused)",
+    "C13-i": "reference server's gRPC-Web trailer block encoder writes field names as given instead of lower-cased",
+    "C13-j": "`tracer.GetDecompressor` switch rewritten over name constants: one encoding name maps to the wrong decompressor",
     "C13-k": "`checkGRPCStatus`: a grpc-message that is present but empty is no longer compared with the message inside grpc-status-details-bin",
     "C13-l": "`tracer.GetDecompressor` returns one process-wide zstd decompressor instead of a fresh one per caller",
     "C13-m": "capture buffer for unary Connect error bodies comes from a sync.Pool and is never reset: leftovers of a body the examiner gave up on prefix the next one",
